@@ -200,6 +200,16 @@ def compiler_types(U, grammar='binary'):
     U.extract(CPR, 'struct CompiledProg')
 
 
+def grammar_ambient(U):
+    """`into_unary` and the FromUnary impls as callees known by contract (they are verified in units parser / parser_unary): present in
+    every parser unit so that an edit which re-levels a sub-expression (`into_unary(self.parse_x()?)`) is decided against the grammar
+    instead of failing to type-check"""
+    for t, inner in (('Addition', 'Addition::Unary(inner)'), ('Multiplication', 'Multiplication::Unary(inner)'), ('Relation', 'Relation::Unary(inner)'),
+                     ('ConditionalAnd', 'ConditionalAnd::Unary(inner)'), ('ConditionalOr', 'ConditionalOr::Unary(inner)'), ('Unary', 'Unary::Member(inner)')):
+        U.extract(GR, f'impl FromUnary for {t}', fns={'from_unary': A(stub=True, ret='r', ensures=[('def', f'r == {inner}')])})
+    U.extract(GR, 'fn into_unary', annot=A(stub=True, ret='r', ensures=[('wraps', 'r.0 == v.0 && exists|n: U| call_ensures(U::from_unary, (v.1,), n) && r.1 == mk_ast(n, a_loc(v.1))')]))
+
+
 # ---- the Tokenizer trait with the scanner position (for spans that the parser takes from location()) ------------------------------
 TOKENIZER_FULL = r"""
 /// the end of a span (SourceRange has private fields)
